@@ -408,6 +408,13 @@ static size_t run_line(size_t pc, int in_child, int *stop) {
         sigemptyset(&sa.sa_mask); sigaddset(&sa.sa_mask, SIGHUP); sigaddset(&sa.sa_mask, SIGWINCH);
         int sl[] = { SIGPIPE, SIGUSR1, SIGTERM, SIGALRM, SIGXFSZ, SIGIO }; for (size_t i = 0; i < sizeof sl / sizeof sl[0]; i++) sigaction(sl[i], &sa, NULL);
     } else if (!strcmp(c, "sighandlers")) { for (int s = 1; s < 32; s++) if (s != SIGKILL && s != SIGSTOP && s != SIGCHLD && s != SIGSEGV && s != SIGBUS && s != SIGILL && s != SIGFPE && s != SIGABRT) signal(s, onsig);
+    } else if (!strcmp(c, "dotpath")) {                             /* dotpath <n> <hex suffix>: "/" + "./" * n + suffix, built here instead of travelling through the script */
+        size_t m = 0; unsigned char *suf = unhex(tok[2], &m); size_t k = (size_t) atol(tok[1]); free(cur.path);
+        cur.path = malloc(1 + 2 * k + m + 1); cur.path[0] = '/'; for (size_t i = 0; i < k; i++) { cur.path[1 + 2 * i] = '.'; cur.path[2 + 2 * i] = '/'; }
+        memcpy(cur.path + 1 + 2 * k, suf ? suf : (unsigned char *) "", m); cur.path[1 + 2 * k + m] = 0; free(suf);
+    } else if (!strcmp(c, "manyargv")) {                            /* manyargv <count>: "arg0" .. "arg<count-1>" */
+        freevec(&cur.argv, &cur.argc); size_t k = strtoul(tok[1], 0, 10); cur.argv = calloc(k + 1, sizeof *cur.argv);
+        for (size_t i = 0; i < k; i++) { char b_[32]; snprintf(b_, sizeof b_, "arg%zu", i); cur.argv[cur.argc++] = strdup(b_); }
     } else if (!strcmp(c, "path")) { free(cur.path); cur.path = unhex(tok[1], &n);
     } else if (!strcmp(c, "argv") || !strcmp(c, "envp")) {
         char ***v = !strcmp(c, "argv") ? &cur.argv : &cur.envp; size_t *cnt = !strcmp(c, "argv") ? &cur.argc : &cur.envc;
